@@ -564,14 +564,13 @@ theorem stages (cm : Bool) (iters F : Nat) (hF1 : 1 ≤ F) :
   obtain ⟨s', c', e, st, h1, h2, h3, _, h5⟩ := recoverLoop_progress hfs ht F t c steps (by omega) htB hgz hc
   exact ⟨s', c', e, st, h1, h2, h3, h5⟩
 
-/-- `ReadData1` with the concrete sub-loops (incl. `CreateSubSuperInstance` with the regenerated or any other guard):
-for every oracle, exchange and working-session files -/
-theorem readData1_ok (o : Oracle) (guard : Option Nat) (cm wsMode : Bool) (iters maxErr : Nat) (s : IS) :
-    ∃ r, readData1 o guard cm wsMode iters maxErr (s.rest.length + 2) s = .ok r ∧ r.s.m ≤ s.m ∧
-      r.steps ≤ 54 * (s.rest.length + 1) + iters + 23 ∧
+/-- `ReadData1` with the concrete sub-loops (incl. `CreateSubSuperInstance` with the regenerated or any other guard), in
+potential form and for any fuel `F` above the stream measure: for every oracle, exchange and working-session files -/
+theorem readData1_okF (o : Oracle) (guard : Option Nat) (cm wsMode : Bool) (iters maxErr : Nat) (s : IS) (F : Nat)
+    (hm : s.m + 1 ≤ F) :
+    ∃ r, readData1 o guard cm wsMode iters maxErr F s = .ok r ∧ r.s.m ≤ s.m ∧
+      r.steps + dataPot 22 iters r.s ≤ dataPot 22 iters s + 23 ∧
       r.notCreated ≤ maxErr + 1 ∧ (r.aborted = true ↔ r.notCreated = maxErr + 1) := by
-  have hm : s.m ≤ s.rest.length + 1 := by unfold IS.m; split <;> omega
-  generalize hF : s.rest.length + 2 = F at *
   obtain ⟨ht, hs, hrec⟩ := stages cm iters F (by omega)
   have hsub := createSubSuper_ok iters guard F (by omega)
   have hci := createInstanceSkel_ok (R := iters) (B := F - 1) o hsub ht hs
@@ -584,22 +583,29 @@ theorem readData1_ok (o : Oracle) (guard : Option Nat) (cm wsMode : Bool) (iters
   obtain ⟨r, a, b, c, _, d, f⟩ := dataLoop_ok (D := 22) (maxErr := maxErr) wsMode false hrec hinst ht (by omega)
     F s0 e 0 false 0 0 0 (by omega) (by omega) (Nat.zero_le _)
   refine ⟨r, a, by omega, ?_, d, f⟩
-  have h1 := dataPot_le (D := 22) (R := iters) s0
-  have : 0 ≤ dataPot 22 iters r.s := Nat.zero_le _
-  have : 54 * s0.m ≤ 54 * (s.rest.length + 1) := by omega
+  have h1 := pot_mono (R := iters) hfe
+  have h2 := mul_mono' 22 hfe
+  simp only [dataPot, bigPot] at c ⊢
+  omega
+
+theorem readData1_ok (o : Oracle) (guard : Option Nat) (cm wsMode : Bool) (iters maxErr : Nat) (s : IS) :
+    ∃ r, readData1 o guard cm wsMode iters maxErr (s.rest.length + 2) s = .ok r ∧ r.s.m ≤ s.m ∧
+      r.steps ≤ 54 * (s.rest.length + 1) + iters + 23 ∧
+      r.notCreated ≤ maxErr + 1 ∧ (r.aborted = true ↔ r.notCreated = maxErr + 1) := by
+  have hm : s.m ≤ s.rest.length + 1 := by unfold IS.m; split <;> omega
+  obtain ⟨r, a, b, c, d, f⟩ := readData1_okF o guard cm wsMode iters maxErr s (s.rest.length + 2) (by omega)
+  refine ⟨r, a, b, ?_, d, f⟩
+  have h1 := dataPot_le (D := 22) (R := iters) s
+  have : 54 * s.m ≤ 54 * (s.rest.length + 1) := by omega
   omega
 
 /-- `ReadData2`: the same loop around any per-instance reader `ri` that is a stage with constant `K` (never un-reads, its
 steps paid by what it consumes up to `K`) -/
-theorem readData2_ok (ri : IS → Out LoopRes) (K : Nat) (hK : 1 ≤ K) (cm wsMode : Bool) (iters maxErr : Nat) (s : IS)
-    (hri : StageOk iters ri K (s.rest.length + 1)) :
-    ∃ r, readData2 ri cm wsMode iters maxErr (s.rest.length + 2) s = .ok r ∧ r.s.m ≤ s.m ∧
-      r.steps ≤ (39 + K) * (s.rest.length + 1) + iters + K + 8 ∧
+theorem readData2_okF (ri : IS → Out LoopRes) (K : Nat) (hK : 1 ≤ K) (cm wsMode : Bool) (iters maxErr : Nat) (s : IS) (F : Nat)
+    (hm : s.m + 1 ≤ F) (hri : StageOk iters ri K (F - 1)) :
+    ∃ r, readData2 ri cm wsMode iters maxErr F s = .ok r ∧ r.s.m ≤ s.m ∧
+      r.steps + dataPot (K + 7) iters r.s ≤ dataPot (K + 7) iters s + (K + 8) ∧
       r.notCreated ≤ maxErr + 1 ∧ (r.aborted = true ↔ r.notCreated = maxErr + 1) := by
-  have hm : s.m ≤ s.rest.length + 1 := by unfold IS.m; split <;> omega
-  generalize hF : s.rest.length + 2 = F at *
-  have hB : s.rest.length + 1 = F - 1 := by omega
-  rw [hB] at hri
   obtain ⟨ht, hs, hrec⟩ := stages cm iters F (by omega)
   have hinst := instOrSkip_ok hri hs hK
   unfold readData2
@@ -610,9 +616,21 @@ theorem readData2_ok (ri : IS → Out LoopRes) (K : Nat) (hK : 1 ≤ K) (cm wsMo
   obtain ⟨r, a, b, c, _, d, f⟩ := dataLoop_ok (D := K + 7) (maxErr := maxErr) wsMode true hrec hinst ht (Nat.le_refl _)
     F s0 e 0 false 0 0 0 (by omega) (by omega) (Nat.zero_le _)
   refine ⟨r, a, by omega, ?_, d, f⟩
-  have h1 := dataPot_le (D := K + 7) (R := iters) s0
-  have : 0 ≤ dataPot (K + 7) iters r.s := Nat.zero_le _
-  have h2 : (32 + (K + 7)) * s0.m ≤ (39 + K) * (s.rest.length + 1) := by
+  have h1 := pot_mono (R := iters) hfe
+  have h2 := mul_mono' (K + 7) hfe
+  simp only [dataPot, bigPot] at c ⊢
+  omega
+
+theorem readData2_ok (ri : IS → Out LoopRes) (K : Nat) (hK : 1 ≤ K) (cm wsMode : Bool) (iters maxErr : Nat) (s : IS)
+    (hri : StageOk iters ri K (s.rest.length + 1)) :
+    ∃ r, readData2 ri cm wsMode iters maxErr (s.rest.length + 2) s = .ok r ∧ r.s.m ≤ s.m ∧
+      r.steps ≤ (39 + K) * (s.rest.length + 1) + iters + K + 8 ∧
+      r.notCreated ≤ maxErr + 1 ∧ (r.aborted = true ↔ r.notCreated = maxErr + 1) := by
+  have hm : s.m ≤ s.rest.length + 1 := by unfold IS.m; split <;> omega
+  obtain ⟨r, a, b, c, d, f⟩ := readData2_okF ri K hK cm wsMode iters maxErr s (s.rest.length + 2) (by omega) hri
+  refine ⟨r, a, b, ?_, d, f⟩
+  have h1 := dataPot_le (D := K + 7) (R := iters) s
+  have h2 : (32 + (K + 7)) * s.m ≤ (39 + K) * (s.rest.length + 1) := by
     have : 32 + (K + 7) = 39 + K := by omega
     rw [this]
     exact Nat.mul_le_mul_left _ (by omega)
